@@ -66,6 +66,9 @@ func main() {
 		rs.Run(prog, res)
 		res.Analysed["ssa_functions"] = prog.NumFuncs()
 		res.Analysed["load_s"] = prog.LoadS
+		if len(prog.Renamed) > 0 {
+			res.Analysed["anchors_resolved_by_role"] = prog.Renamed
+		}
 	}()
 	known, err := core.LoadKnown(filepath.Join(*verif, "known_findings.json"))
 	if err != nil {
